@@ -19,7 +19,9 @@ WEIGHTS = {'add_node': 6, 'add_node_dup': 1, 'link': 8, 'remove_node': 4, 'add_a
            'compromise': 6, 'undo': 3, 'attach': 1, 'set_labels': 2, 'prune': 1, 'lookup': 2, 'surface': 1,
            # calls that must be rejected and change nothing: unknown node id after valid ones, id in use with reached steps,
            # an attacker / node object that is already part of the graph (same id, other id, no id)
-           'add_attacker_bad': 2, 'add_attacker_used_id': 1, 'add_attacker_again': 1, 'add_node_again': 1}
+           'add_attacker_bad': 2, 'add_attacker_used_id': 1, 'add_attacker_again': 1, 'add_node_again': 1,
+           # a deep copy is a graph of its own: both sides stay consistent whichever of the two is operated on afterwards
+           'deepcopy': 1, 'switch': 1}
 
 def check_history(pid, ops, res: Result, oracle, model_out=None):
     """returns list of Violation for one history"""
@@ -201,7 +203,8 @@ def renumber(ops, i):
 
 def step_oracle(im, ops, i, st):
     # after EVERY operation, the rejected ones too: the graph is consistent, and a rejected operation has changed nothing
-    return consistent(im.g) + rejected_clean(st)
+    other = [p + ' (the other side of the deep copy)' for p in consistent(im.other)] if im.other is not None else []
+    return consistent(im.g) + other + rejected_clean(st)
 
 def generated_case(rnd):
     """a graph generated from a random language and model (duplicate edges arise when two paths or two step expressions
